@@ -4,13 +4,14 @@
 //@ requires: air_values_matrix
 //@ functions: Stream::add_value; Stream::iter; Stream::slice_iter; Stream::cursor; Stream::check_stream_size_limit; ValuesMatrix::add_value_to_generation; ValuesMatrix::iter; ValuesMatrix::slice_iter; ValuesMatrix::get_size; NewValuesMatrix::add_to_last_generation; Generation::from_data
 //@ assumes: instantiation Stream<P> with P = { trace_pos: u32, tag: u8 } (the real generic code, a trivial payload instead of ValueAggregate)
-//@ assumes: generation indices are any u32 with the middle range 4..STREAM_MAX_SIZE-1 excluded from add_value harnesses (the resize loop would need 1024 unwindings); boundary STREAM_MAX_SIZE and everything above are included
-//@ stubs: alloc::fmt::format -> empty String
+//@ assumes: generation indices >= STREAM_MAX_SIZE are symbolic (any u32 up to u32::MAX); below the limit only 0, 1, 3 are exercised (the resize loop runs generation+1 times)
+//@ stubs: ValuesMatrix::add_value_to_generation -> assert(false) in c01_stream_generation_bounded (forbidden step for generations beyond the limit); alloc::fmt::format -> empty String
 //@ decides: C01: adding a value under any generation index from data neither panics nor allocates more than STREAM_MAX_SIZE generations (larger indices are rejected)
 //@ decides: C12: iteration yields previous-data values, then current-data values, then new values; generation-major inside each source, insertion order inside a generation, whatever order the values were added in
 //@ decides: C13: after n additions the stream holds exactly n values, each once; the size limit error appears exactly when the cumulative size reaches STREAM_MAX_SIZE
 //@ outside: compactify / generation renumbering written back to the trace (needs TraceHandler with rich states); RecursiveStreamCursor over ValueAggregate iterables
-//@ harness: name=c01_stream_generation_bounded playback=1 props=C01 panicfree=1 cap=900 cost=60 sym="generation: any u32 outside 4..1023; source previous/current: any" bound="one addition into a stream holding one value"
+//@ harness: name=c01_stream_generation_bounded playback=1 props=C01 panicfree=1 cap=900 cost=60 sym="generation: any u32 >= STREAM_MAX_SIZE; source previous/current: any" bound="one addition into an empty stream"
+//@ harness: name=c01_stream_generation_small playback=1 trivial=1 props=C01,C13 cap=900 cost=60 sym="none: generations 0 and 2" bound="one addition"
 //@ harness: name=c12_stream_iteration_order playback=1 props=C12,C13 cap=1800 cost=300 sym="tags of 5 values: any u8; four scrambled (concrete) insertion orders" bound="previous generations {0,2}, current {1}, one new value"
 //@ harness: name=c13_cursor_sees_values_added_later playback=1 props=C13,C09,C12 cap=1800 cost=200 sym="generation (0..=2) of one previous-data and one current-data value (sparse matrices); the later value: source previous/current/new and a later generation (<= 3)" bound="3 values; generations <= 3"
 //@ harness: name=c13_stream_size_limit_exact playback=1 props=C13 cap=900 cost=60 sym="sizes of the three sources: any usize with sum < 2^20" bound="sizes set directly in the matrices (no 1024 insertions)"
@@ -38,33 +39,48 @@ fn gen(g: u32) -> GenerationIdx {
     GenerationIdx::from(g as usize)
 }
 
-#[kani::proof]
-#[kani::unwind(7)]
-#[kani::stub(alloc::fmt::format, fmt_stub)]
-fn c01_stream_generation_bounded() {
+fn generation_body(g: u32, from_prev: bool) {
     let mut s = Stream::<P>::new();
-    let r0 = s.add_value(P { trace_pos: 0, tag: 0 }, Generation::Previous(gen(0)));
-    kani::assert(r0.is_ok(), "C13: first value accepted");
-    let g: u32 = kani::any();
-    kani::assume(g <= 3 || g as usize >= STREAM_MAX_SIZE - 1);
-    kani::assume(g as usize != STREAM_MAX_SIZE - 1); // 1023 would resize to 1024 entries: covered by the bound argument
-    let from_prev: bool = kani::any();
     let generation = if from_prev { Generation::Previous(gen(g)) } else { Generation::Current(gen(g)) };
     let r = s.add_value(P { trace_pos: 1, tag: 1 }, generation);
     kani::assert(r.is_ok() == ((g as usize) < STREAM_MAX_SIZE), "C01: generations beyond the stream size limit are rejected, others accepted");
     let gens_prev: usize = s.previous_values.generations_count().into();
     let gens_cur: usize = s.current_values.generations_count().into();
     kani::assert(gens_prev <= STREAM_MAX_SIZE && gens_cur <= STREAM_MAX_SIZE, "C01: never more generations allocated than the stream may hold values");
-    if r.is_ok() {
-        kani::assert(s.iter().count() == 2, "C13: both values present");
-    } else {
-        kani::assert(s.iter().count() == 1, "C13: a rejected value is not stored");
-    }
-    kani::cover!(r.is_err() && g == u32::MAX, "u32::MAX rejected");
-    kani::cover!(r.is_ok() && g == 3, "sparse generation accepted");
+    let stored = s.previous_values.get_size() + s.current_values.get_size();
+    kani::assert(stored == r.is_ok() as usize, "C13: a rejected value is not stored, an accepted one is");
     std::mem::forget(r);
-    std::mem::forget(r0);
     std::mem::forget(s);
+}
+
+/// reaching the value matrix with a generation beyond the limit is the forbidden step (there the matrix would
+/// be resized to generation + 1 slots: CBMC cannot execute an allocation of symbolic size, and the real run
+/// would allocate gigabytes / overflow)
+fn matrix_add_stub<T: Clone>(_m: &mut ValuesMatrix<T>, value: T, _g: GenerationIdx) {
+    kani::assert(false, "C01: a generation index beyond the stream size limit must be rejected before the value matrix is touched");
+    std::mem::forget(value);
+}
+
+/// large generation indices (everything from the stream size limit up to u32::MAX) are symbolic
+#[kani::proof]
+#[kani::unwind(4)]
+#[kani::stub(crate::execution_step::value_types::stream::values_matrix::ValuesMatrix::add_value_to_generation, matrix_add_stub)]
+#[kani::stub(alloc::fmt::format, fmt_stub)]
+fn c01_stream_generation_bounded() {
+    let g: u32 = kani::any();
+    kani::assume(g as usize >= STREAM_MAX_SIZE);
+    generation_body(g, kani::any());
+    kani::cover!(g == u32::MAX, "u32::MAX rejected");
+}
+
+/// small generation indices are enumerated because ValuesMatrix::resize is a loop over the index
+#[kani::proof]
+#[kani::unwind(7)]
+#[kani::stub(alloc::fmt::format, fmt_stub)]
+fn c01_stream_generation_small() {
+    generation_body(0, true);
+    generation_body(2, false);
+    kani::cover!(true, "end reached");
 }
 
 fn order_body(perm: [usize; 5]) {
